@@ -468,6 +468,17 @@ def run_check(pid, module, tier, seed):
     except subprocess.TimeoutExpired as ex:
         log("timeout: %s" % ex)
         return 2
+    except Exception as ex:  # noqa: BLE001
+        # A crash of the correspondence harness on a source that differs from the one the models were validated against is a
+        # correspondence that no longer checks (the change made the real code behave in a way the harness cannot even drive),
+        # not an infrastructure problem: it is reported as a broken tie, after the search stage had its chance.  On the
+        # pinned source it stays what it is: a defect of the harness.
+        import traceback
+        if not getattr(ctx, "changed_sources", None):
+            raise
+        log("correspondence harness crashed on a changed source: %s\n%s" % (ex, traceback.format_exc()[-1500:]))
+        ctx.broken.append("correspondence could not be run on the changed source (%s): %s: %s"
+                          % (", ".join(ctx.changed_sources[:4]), type(ex).__name__, str(ex)[:200]))
 
     # search stage: something no longer checks and no monitor has shown a failing input yet
     tie_broken = bool(ctx.broken or ctx.disagreements)
